@@ -177,6 +177,23 @@ class B:
         p, q = self.route(d_e, None, "body")
         self.body["lit"].append(f"{led}.flash_pattern({vals!r}, {p})")
         self.body["var"] += [f"{pat} = {vals!r}", f"{led}.flash_pattern({pat}, delay_ms={q})"]
+        # the tracked list is mutated at the same level before a further use: the baked pattern must follow
+        if self.draw(st.booleans()):
+            cur = list(vals)
+            muts = []
+            for _ in range(self.draw(st.integers(1, 3))):
+                if cur and self.draw(st.booleans()):
+                    v = self.draw(st.sampled_from(cur))
+                    muts.append(f"{pat}.remove({v})")
+                    cur.remove(v)
+                else:
+                    v = self.draw(st.sampled_from([0, 1, 2, 255, 7]))
+                    muts.append(f"{pat}.append({v})")
+                    cur.append(v)
+            if cur:
+                self.body["lit"].append(f"{led}.flash_pattern({cur!r}, 1)")
+                self.body["var"] += muts + [f"{led}.flash_pattern({pat}, 1)"]
+                vals = cur
         # T2: a re-assignment *after* the use (must not travel back in time)
         vals2 = [self.draw(st.sampled_from([0, 1, 2, 200])) for _ in vals]
         self.body["lit"].append(f"{led}.flash_pattern({vals2!r}, 1)")
